@@ -23,7 +23,7 @@ REPO = Path(os.environ.get("VERIF_REPO", "/repo"))
 PY = "/venv/bin/python"
 NPROC = int(os.environ.get("VERIF_JOBS", "16"))
 
-COQ_ARGS = ["-Q", str(COQ / "theories"), "PDT", "-Q", str(COQ / "generated"), "PDTGen"]
+COQ_ARGS = ["-noglob", "-Q", str(COQ / "theories"), "PDT", "-Q", str(COQ / "generated"), "PDTGen"]      # case files: no .glob
 
 
 def seed() -> int:
